@@ -414,6 +414,15 @@ impl<'a, 'tcx> Cx<'a, 'tcx> {
                     if let Ok(si) = sc.try_to_scalar_int() {
                         val = Some(format!("{}", si.to_bits_unchecked()));
                     } else if let rustc_middle::mir::interpret::Scalar::Ptr(ptr, _) = sc {
+                        // a reference to a static (`&ring::signature::RSA_PKCS1_SHA512`): name the static
+                        {
+                            let (prov, _off) = ptr.prov_and_relative_offset();
+                            if let Some(rustc_middle::mir::interpret::GlobalAlloc::Static(did)) =
+                                tcx.try_get_global_alloc(prov.alloc_id())
+                            {
+                                def = Some(with_no_trimmed_paths!(tcx.def_path_str(did)));
+                            }
+                        }
                         // thin reference to a byte array (e.g. format_args! templates): emit the bytes
                         if let ty::Ref(_, inner, _) = ty.kind() {
                             if let ty::Array(e, n) = inner.kind() {
